@@ -323,6 +323,16 @@ pub fn gen_spec(rng: &mut Rng, p: &Profile) -> Spec {
             };
             wild_path = true;
         }
+        if p.hard_names && with_id && !wild_path && rng.chance(1, 6) {
+            // kebab-case / dotted placeholder names (the placeholder is whatever stands between the braces)
+            path = match rng.below(4) {
+                0 => format!("/{}/{{pet-id}}", res),
+                1 => format!("/{}/{{user.id}}", res),
+                2 => format!("/v1.0/{}.json/{{id}}", res),
+                _ => format!("/{}/{{Item-ID}}/history", res),
+            };
+            wild_path = true;
+        }
         if p.hard_names && rng.chance(1, 10) {
             path.push('/');     // Django-style route: the trailing slash is part of the template
         }
